@@ -276,7 +276,7 @@ func optNone(s string, ok bool) string {
 
 func main() {
 	if len(os.Args) < 2 {
-		fmt.Fprintln(os.Stderr, "usage: edf <roundtrip|negotiated> [flags]")
+		fmt.Fprintln(os.Stderr, "usage: edf <roundtrip|negotiated|window> [flags]")
 		os.Exit(2)
 	}
 	fs := flag.NewFlagSet(os.Args[1], flag.ExitOnError)
@@ -287,13 +287,17 @@ func main() {
 	corpus := fs.String("corpus", "", "directory of replay files run before the generated cases")
 	wcorp := fs.String("writecorpus", "", "write the deterministic encodeType-flag cases as replay files into this directory and exit")
 	fs.Parse(os.Args[2:])
-	if os.Args[1] != "roundtrip" && os.Args[1] != "negotiated" {
+	if os.Args[1] != "roundtrip" && os.Args[1] != "negotiated" && os.Args[1] != "window" {
 		fmt.Fprintln(os.Stderr, "unknown subcommand")
 		os.Exit(2)
 	}
 	registerAll()
 	if *wcorp != "" {
 		writeFlagCorpus(*wcorp)
+		return
+	}
+	if os.Args[1] == "window" {
+		mainWindow(*n, *outp, *replay)
 		return
 	}
 	if os.Args[1] == "negotiated" {
